@@ -43,7 +43,7 @@ type G struct {
 
 func newG(r *run.Rng) *G { return &G{r: r} }
 
-func (g *G) flag(s string)   { g.shape = append(g.shape, s) }
+func (g *G) flag(s string)    { g.shape = append(g.shape, s) }
 func (g *G) shapeStr() string { return strings.Join(g.shape, ",") }
 
 func (g *G) u64() uint64 {
